@@ -25,6 +25,22 @@ func bd(v *big.Int) osmomath.BigDec {
 }
 func dec(v *big.Int) osmomath.Dec { return osmomath.NewDecFromBigIntWithPrec(new(big.Int).Set(v), 18) }
 
+// untouched fails if a call changed the value of an operand it was given: the functions take their operands by value
+// but Dec/BigDec wrap a pointer, so an in-place update inside the function makes every later evaluation "for the same
+// input" operate on a different number. ops are (name, value after the call, value before the call) triples.
+type operand struct {
+	name          string
+	after, before *big.Int
+}
+
+func untouched(rt *rapid.T, fn string, ops ...operand) {
+	for _, o := range ops {
+		if o.after.Cmp(o.before) != 0 {
+			rt.Fatalf("%s changed its operand %s in place: it was %s and is %s after the call", fn, o.name, o.before, o.after)
+		}
+	}
+}
+
 func tenPowF(n int) *big.Float { // 10^-n
 	return ref.Fquo(ref.F(1), ref.FI(ref.Pow10(n)))
 }
@@ -112,7 +128,11 @@ func TestPropExp2(t *testing.T) {
 			x.Add(x, new(big.Int).Mul(big.NewInt(int64(rapid.IntRange(1, 999).Draw(rt, "milli"))), ref.Pow10(33)))
 		}
 		var r osmomath.BigDec
-		pan, msg := try(func() { r = osmomath.Exp2(bd(x)) })
+		X := bd(x)
+		pan, msg := try(func() { r = osmomath.Exp2(X) })
+		if !pan {
+			untouched(rt, "Exp2", operand{"x", X.BigInt(), x})
+		}
 		if x.Sign() < 0 || x.Cmp(max) > 0 {
 			if !pan {
 				rt.Fatalf("Exp2(%s/1e36) outside [0,512] returned %s instead of failing", x, r)
@@ -195,18 +215,29 @@ func TestPropLog(t *testing.T) {
 			}
 		}
 		var r osmomath.BigDec
+		X := bd(x)
+		var B osmomath.BigDec
+		if base != nil {
+			B = bd(base)
+		}
 		pan, msg := try(func() {
 			switch fn {
 			case "LogBase2":
-				r = bd(x).LogBase2()
+				r = X.LogBase2()
 			case "Ln":
-				r = bd(x).Ln()
+				r = X.Ln()
 			case "TickLog":
-				r = bd(x).TickLog()
+				r = X.TickLog()
 			default:
-				r = bd(x).CustomBaseLog(bd(base))
+				r = X.CustomBaseLog(B)
 			}
 		})
+		if !pan {
+			untouched(rt, fn, operand{"x", X.BigInt(), x})
+			if base != nil {
+				untouched(rt, fn, operand{"base", B.BigInt(), base})
+			}
+		}
 		illegal := x.Sign() <= 0 || (base != nil && (base.Sign() <= 0 || base.Cmp(P36) == 0))
 		if illegal {
 			if !pan {
@@ -342,13 +373,17 @@ func TestPropPow(t *testing.T) {
 		}
 		direct := rapid.IntRange(0, 3).Draw(rt, "direct") == 0 && e.Cmp(P18) < 0 && b.Sign() > 0 && b.Cmp(two) <= 0
 		var r osmomath.Dec
+		B, E := dec(b), dec(e)
 		pan, msg := try(func() {
 			if direct {
-				r = osmomath.PowApprox(dec(b), dec(e), osmomath.GetPowPrecision())
+				r = osmomath.PowApprox(B, E, osmomath.GetPowPrecision())
 			} else {
-				r = osmomath.Pow(dec(b), dec(e))
+				r = osmomath.Pow(B, E)
 			}
 		})
+		if !pan {
+			untouched(rt, "Pow", operand{"base", B.BigInt(), b}, operand{"exponent", E.BigInt(), e})
+		}
 		if b.Sign() <= 0 || (!direct && b.Cmp(two) >= 0) {
 			if !pan {
 				rt.Fatalf("Pow(%s/1e18, %s/1e18) outside the domain returned %s", b, e, r)
@@ -413,16 +448,20 @@ func TestPropSqrt(t *testing.T) {
 		}
 		sqrt := func(d *big.Int) (*big.Int, error) {
 			if big36 {
-				r, err := osmomath.MonotonicSqrtBigDec(bd(d))
+				D := bd(d)
+				r, err := osmomath.MonotonicSqrtBigDec(D)
 				if err != nil {
 					return nil, err
 				}
+				untouched(rt, "MonotonicSqrtBigDec", operand{"d", D.BigInt(), d})
 				return r.BigInt(), nil
 			}
-			r, err := osmomath.MonotonicSqrt(dec(d))
+			D := dec(d)
+			r, err := osmomath.MonotonicSqrt(D)
 			if err != nil {
 				return nil, err
 			}
+			untouched(rt, "MonotonicSqrt", operand{"d", D.BigInt(), d})
 			return r.BigInt(), nil
 		}
 		if rapid.IntRange(0, 19).Draw(rt, "neg") == 0 {
@@ -492,7 +531,9 @@ func TestPropSigFig(t *testing.T) {
 		default:
 			d = big.NewInt(rapid.Int64Range(1, 1<<62).Draw(rt, "d"))
 		}
-		r := osmomath.SigFigRound(dec(d), osmomath.NewIntFromBigInt(ref.Pow10(s)))
+		D := dec(d)
+		r := osmomath.SigFigRound(D, osmomath.NewIntFromBigInt(ref.Pow10(s)))
+		untouched(rt, "SigFigRound", operand{"d", D.BigInt(), d})
 		if d.Sign() == 0 {
 			if !r.IsZero() {
 				rt.Fatalf("SigFigRound(0) = %s", r)
@@ -517,4 +558,17 @@ func TestPropSigFig(t *testing.T) {
 			c.Samplef("SigFigRound(%s/1e18, 10^%d) = %s", d, s, r)
 		}
 	})
+}
+
+
+// TestRegress_C13_sigfig_input: SigFigRound scaled a caller's value below 0.1 in place (fixed).
+func TestRegress_C13_sigfig_input(t *testing.T) {
+	d := osmomath.MustNewDecFromStr("0.0012345")
+	r := osmomath.SigFigRound(d, osmomath.NewInt(100))
+	if !d.Equal(osmomath.MustNewDecFromStr("0.0012345")) {
+		t.Fatalf("SigFigRound(0.0012345, 100) changed its argument to %s", d)
+	}
+	if !r.Equal(osmomath.MustNewDecFromStr("0.0012")) {
+		t.Fatalf("SigFigRound(0.0012345, 100) = %s", r)
+	}
 }
